@@ -156,9 +156,38 @@ def near_boundary(ref, pd, x):
         # row 0 of every table sits at exactly 0.0 (0 * step carries no rounding): which side of a boundary at 0 it
         # is on is not in doubt ('>=0 f' gives f(0), '>0 f' and a bare 'f' give 0)
         return False
+    if model.on_boundary(ref, pd, x):
+        # the grid position given by the format's own formula (i*step, i*cutoff/(nr-1)) IS the boundary value:
+        # nothing is in doubt, the row belongs to the side the definition says ('>=s' includes s)
+        return False
     return not model.same_piece(ref, pd, x, 64 * 2.3e-16 * max(1.0, abs(x)))
 
 
 def grids(m):
     g = m["grid"]
     return g["nr"], g["cutoff"] / float(g["nr"] - 1), g["nrho"], g["cutoff_rho"] / float(g["nrho"] - 1)
+
+
+def with_node_breaks(draw, m, formula="i*step"):
+    """replace some functions of an EAM model by multi-range definitions whose break points are EXACTLY grid rows
+    (the float the format's own row formula gives).  formula: 'i*step' (setfl, TABEAM: float(i) * (cutoff/(n-1)))
+    or 'i*total/(n-1)' (spreadsheets)"""
+    from hypothesis import strategies as st
+    from . import gen
+    g = m["grid"]
+
+    def node(i, total, n):
+        return float(i) * (total / float(n - 1)) if formula == "i*step" else float(i) * total / float(n - 1)
+
+    def pdef(total, n):
+        ks = draw(st.lists(st.integers(1, max(1, n - 1)), min_size=1, max_size=2, unique=True))
+        return draw(gen.node_break_potdef([node(k, total, n) for k in ks]))
+    for kind in ("embed", "density", "density_fs", "pair", "dipole", "quadrupole"):
+        for ent in m.get(kind) or []:
+            if draw(st.integers(0, 1)) == 0:
+                if kind == "embed":
+                    ent[-1] = pdef(g["cutoff_rho"], g["nrho"])
+                else:
+                    ent[-1] = pdef(g["cutoff"], g["nr"])
+    m["node_breaks"] = True
+    return m
